@@ -21,7 +21,7 @@ if [ ! -d $base/repo ]; then
   fi
 fi
 if [ ! -d $base/lean ]; then cp -a /verif/lean $base/lean; fi
-rsync -a --delete --exclude .lake --exclude .audit --exclude .lake.lock --exclude 'NauyacaVerif/Gen/Params.lean' --exclude 'NauyacaVerif/Gen/Tls.lean' /verif/lean/ $base/lean/
+rsync -a --delete --exclude .lake --exclude .audit --exclude .lake.lock --exclude 'NauyacaVerif/Gen/*.lean' /verif/lean/ $base/lean/
 cd /verif
 NAUYACA_REPO=$base/repo NAUYACA_LEAN_DIR=$base/lean NAUYACA_OUT=$base/out ./check "$@"
 rc=$?
